@@ -56,21 +56,6 @@ Theorem ldb_counters_running : forall osz ops,
 Proof. intros. rewrite (ldb_run_met osz ops ldb0 [] ldb_rel0). reflexivity. Qed.
 
 (* ---------- in-memory kind ---------- *)
-Lemma cm_delete_ret_neg : forall batch cm key cm' ret, cm_inv batch cm -> key < two64 ->
-  cm_delete batch cm key = (cm', ret) -> redelete_at batch cm key = true -> (ret < 0)%Z.
-Proof.
-  intros batch cm key cm' ret Hinv Hk Hdel Ht. unfold cm_delete in Hdel. unfold redelete_at in Ht.
-  destruct (locate batch cm key) as [x|] eqn:L; [|discriminate].
-  destruct (locate_some batch cm key x Hinv Hk L) as [s [Hx [Hs [Hl [_ Hsub]]]]].
-  rewrite (nth_of_nth_error cm x empty_section s Hx) in *.
-  destruct (sec_delete s key) as [s' r'] eqn:Sdel. injection Hdel as _ <-.
-  pose proof (ci_wf _ _ Hinv _ _ Hx) as W.
-  destruct (sec_delete_spec batch s key s' r' (sw_inv _ _ W) Sdel) as [_ [_ [_ [_ [_ [Hret _]]]]]].
-  destruct (find_overflow (s_overflow s) (u32 (sub64 key (s_start s)))) as [[c o]|] eqn:F; [|discriminate].
-  destruct (find_overflow_some _ _ _ _ (si_os _ _ (sw_inv _ _ W)) F) as [F1 _].
-  rewrite F1 in Hret. subst r'. apply Z.ltb_lt. exact Ht.
-Qed.
-
 Lemma nm_step_met : forall osz batch s r o, refines batch (nm_map s) r -> op_key o < two64 ->
   nm_met (fst (nm_step osz batch s o)) = snd (ref_metric_step (r, nm_met s) o) /\
   refines batch (nm_map (fst (nm_step osz batch s o))) (fst (ref_step r o)).
@@ -79,26 +64,20 @@ Proof.
   destruct (step_refines batch (nm_map s) r o Href Hk) as [Hnext Hres].
   destruct Href as [Hinv Hrel].
   destruct o as [k off sz|k off|k]; cbn [op_key] in Hk; cbn [nm_step fst ref_metric_step snd].
-  - unfold nm_put. cbn [cm_step step_trig] in Hnext, Hres.
+  - unfold nm_put. cbn [cm_step] in Hnext, Hres.
     destruct (cm_set batch (nm_map s) k off sz) as [[cm' oo] os] eqn:E. cbn [fst snd nm_map nm_met] in *.
-    split; [|exact Hnext]. specialize (Hres eq_refl). rewrite ref_step_put_snd in Hres.
+    split; [|exact Hnext]. rewrite ref_step_put_snd in Hres.
     rewrite log_put_ref. cbv zeta.
     destruct (ref_get r k) as [[ro rs]|]; injection Hres as _ ->; reflexivity.
-  - unfold nm_delete. cbn [cm_step step_trig] in Hnext, Hres.
+  - unfold nm_delete. cbn [cm_step] in Hnext, Hres.
     destruct (cm_delete batch (nm_map s) k) as [cm' ret] eqn:E. cbn [fst snd nm_map nm_met] in *.
     split; [|exact Hnext]. rewrite log_delete_ref.
-    destruct (redelete_at batch (nm_map s) k) eqn:T.
-    + (* the known exception of Delete's return value does not reach the counters *)
-      pose proof (cm_delete_ret_neg batch (nm_map s) k cm' ret Hinv Hk E T) as Hneg.
-      destruct (redelete_negative batch (nm_map s) k Hinv Hk T) as [v [Hv Hvn]].
-      pose proof (Hrel k Hk) as Rk. rewrite Hv in Rk. simpl in Rk. rewrite <- Rk. unfold val. cbn [snd].
-      destruct (Z.ltb_spec 0 ret); [lia|]. destruct (Z.ltb_spec 0 (ssz v)); [lia|reflexivity].
-    + specialize (Hres eq_refl). cbn [ref_step] in Hres.
-      destruct (ref_get r k) as [[ro rs]|].
-      * destruct (Z.ltb_spec 0 rs); cbn [snd] in Hres; injection Hres as ->.
-        -- destruct (Z.ltb_spec 0 rs); [reflexivity|lia].
-        -- reflexivity.
-      * cbn [snd] in Hres. injection Hres as ->. reflexivity.
+    cbn [ref_step] in Hres.
+    destruct (ref_get r k) as [[ro rs]|].
+    + destruct (Z.ltb_spec 0 rs); cbn [snd] in Hres; injection Hres as ->.
+      * destruct (Z.ltb_spec 0 rs); [reflexivity|lia].
+      * reflexivity.
+    + cbn [snd] in Hres. injection Hres as ->. reflexivity.
   - split; [reflexivity|exact Hnext].
 Qed.
 
@@ -153,15 +132,16 @@ Proof.
   repeat split; auto; apply (sw_keys _ _ W); assumption.
 Qed.
 
-(* ---------- finding 0 with the real section capacity ---------- *)
+(* ---------- the repaired overflow re-delete with the real section capacity ---------- *)
 Definition asc_puts (n : nat) : list op :=
   map (fun i => Put (10 * N.of_nat i) (N.of_nat i + 1) (100 + Z.of_nat i)%Z) (seq 0 n).
 Definition redelete_real : list op := asc_puts 140 ++ [Put 55 7 778%Z; Del 55 9; Del 55 9].
 
 Lemma redelete_real_witness :
-  keys_ok redelete_real /\ trig_redelete 100000 redelete_real = true /\
-  nth 142 (fst (cm_run 100000 [] redelete_real)) (RGet None) = RDel (-778)%Z /\
-  nth 142 (fst (ref_run [] redelete_real)) (RGet None) = RDel 0%Z.
+  keys_ok redelete_real /\
+  map (fun s => map sk (s_overflow s)) (snd (cm_run 100000 [] redelete_real)) = [[55]] /\
+  nth 141 (fst (cm_run 100000 [] redelete_real)) (RGet None) = RDel 778%Z /\
+  nth 142 (fst (cm_run 100000 [] redelete_real)) (RGet None) = RDel 0%Z.
 Proof.
   split; [|vm_compute; repeat split; reflexivity].
   unfold keys_ok. rewrite Forall_forall. intros o Ho. unfold redelete_real in Ho. apply in_app_or in Ho.
